@@ -278,8 +278,8 @@ def run_items(items, seed=0, rtol=1e-8, fixed=None):
             continue
         if "exception" in r:
             # an exception where the executor predicted a value: only a mismatch if definedness would not explain it
-            if "ZeroDivision" in r["exception"]:
-                continue
+            if "ZeroDivision" in r["exception"] or "OverflowError" in r["exception"]:
+                continue      # outside the real-arithmetic model (division by zero is a definedness obligation; overflow is floating point)
             mism.append(f"{key}: native raised {r['exception']} at {pt}, executor predicts {expect}")
             continue
         got = r["result"]
